@@ -127,7 +127,12 @@ def one_case(ctx: Ctx, rng, cidx: int, stores: dict) -> None:
     nobj = 1 if (sampler_name in ("grid", "bruteforce", "qmc", "gp") or pruner_name != "nop") else rng.choice([1, 2, 3])
     if sampler_name == "nsga3":
         nobj = max(nobj, 2) if pruner_name == "nop" else 1
-    prog = optrun.gen_program(rng, nobj, finite=finite, fixed_args=(sampler_name == "grid"))
+    # exhaustive / random samplers: categorical choice lists may contain NaN (a legal choice that comes back from a serialising
+    # storage as a different NaN object)
+    nan_choice = sampler_name == "grid" or (sampler_name in ("bruteforce", "random") and cidx % 3 == 0)
+    prog = optrun.gen_program(rng, nobj, finite=finite, fixed_args=(sampler_name == "grid"), nan_choice=nan_choice)
+    if nan_choice and "nan" in repr(prog["tree"]):
+        ctx.count("programs_with_a_nan_categorical_choice")
     seed = rng.randint(0, 10 ** 6)
     n_trials = {"gp": 8}.get(sampler_name, rng.randint(12, ctx.pick(22, 45)))
     sname = f"c09-run-{cidx}"  # the SAME study name in every configuration (Hyperband brackets hash the name)
